@@ -24,6 +24,8 @@
 //!   second, third (twice, both windings) and fourth among faces with normals +z, +x, +y, -z.
 //! * ball pivoting: 12 points on a circle of radius 5 (ball radius 2), plus one extra point reached after a pivot of
 //!   0.05, 1e-2 and 3e-4 rad; start on an index with a direction / on the convex hull.
+//! * ROUND 4: hulls / order direction of outlines with CONSECUTIVE repeated points in the middle of the list; ball pivoting
+//!   around a ring with a DENSE cluster (8 / 40 / 80 points) closer to a ring vertex than the point the ball touches next.
 use super::{close, Report};
 use crate::common::kd_tree::{KdTree, KdTreeSearch, PartialKdTree};
 use crate::common::poisson_disk::sample_poisson_disk;
@@ -468,8 +470,71 @@ fn pivot_checks(r: &mut Report) {
     }
 }
 
+// ------------------------------------------------------------------------------------------------ round 4: repeated points, dense clusters
+/// outlines in which a vertex is listed twice / three times IN A ROW (a sensor sampling the same spot again, a closed loop
+/// repeating a point) somewhere in the middle of the list: the hull clauses and the order direction, both orientations
+fn repeated_point_checks(r: &mut Report, name: &str, poly: &[Point2]) {
+    let n = poly.len();
+    for k in 0..n { for reps in [2usize, 3] { for second in [None, Some((k + n / 2) % n)] { for rev in [false, true] {
+        let mut p: Vec<Point2> = Vec::new();
+        for (i, q) in poly.iter().enumerate() {
+            let m = if i == k { reps } else if Some(i) == second && i != k { 2 } else { 1 };
+            for _ in 0..m { p.push(*q); }
+        }
+        if rev { p.reverse(); }
+        let what = format!("{} with vertex {} listed {} times in a row{}{}", name, k, reps, match second { Some(j) if j != k => format!(" and vertex {} twice", j), _ => String::new() }, if rev { ", reversed" } else { "" });
+        hull_checks(r, &what, &p);
+        r.case();
+        let area = signed_area(&p);
+        let got = point_order_direction(&p);
+        r.check(matches!(got, AngleDir::Ccw) == (area > 0.0), "point_order_direction matches the sign of the signed area (outline with consecutive repeated points)", || format!("{}: {:?}, signed area {}, got {:?}", what, p.iter().map(|q| (q.x, q.y)).collect::<Vec<_>>(), area, got));
+    } } } }
+}
+
+/// ball pivoting (radius 2) around a ring of 60 points of radius 10 with a DENSE cluster of interior points just behind
+/// one ring vertex: `m` points 0.2 .. 0.6 inward of it, i.e. closer to it than its ring neighbours (1.047 away) - so the
+/// point the ball touches next is not among the m nearest neighbours of the working point.  All coordinates distinct
+/// (no ties on a k-d tree split axis)
+fn pivot_dense_checks(r: &mut Report) {
+    let rad = 2.0;
+    for at in [10usize, 25, 47] { for m in [8usize, 40, 80] { for dir in [AngleDir::Ccw, AngleDir::Cw] {
+        let mut pts: Vec<Point2> = (0..60).map(|i| { let a = (i as f64 * 6.0 + 1.0).to_radians(); Point2::new(10.0 * a.cos(), 10.0 * a.sin()) }).collect();
+        let a = pts[at];
+        let out = a.coords.normalize();
+        let tan = Vector2::new(-out.y, out.x);
+        for j in 0..m {
+            let inward = 0.2 + 0.4 * j as f64 / m as f64;
+            let side = 0.1 * (j as f64 * 1.3).sin();
+            pts.push(a - out * inward + tan * side);
+        }
+        let closer = (0..pts.len()).filter(|&j| d(&pts[j], &a) < d(&pts[(at + 1) % 60], &a) - 1e-6).count();
+        r.check(closer == m + 1, "input space: the cluster points (and the vertex itself) are closer to the ring vertex than its ring neighbours", || format!("{} of {}", closer, m + 1));
+        let starts = [("StartOnConvex", BallPivotStart::StartOnConvex), ("StartOnIndexDir(ring vertex 0, outward)", BallPivotStart::StartOnIndexDir(0, pts[0].coords))];
+        for (sname, start) in starts {
+            r.case();
+            let dsc = || format!("ball_pivot_with_centers_2d(ring of 60 points of radius 10 + {} interior points 0.2 .. 0.6 behind ring vertex {}, {}, EndOnRepeat, {:?}, radius {})", m, at, sname, dir, rad);
+            match catch_unwind(AssertUnwindSafe(|| ball_pivot_with_centers_2d(&pts, start, BallPivotEnd::EndOnRepeat, dir, rad))) {
+                Err(_) => r.check(false, "ball pivot does not panic", dsc),
+                Ok(Err(_)) => r.check(false, "ball pivot completes on a closed ring of points", dsc),
+                Ok(Ok((idx, centers))) => {
+                    r.check(centers.len() + 1 == idx.len() && idx.iter().all(|&i| i < pts.len()), "ball pivot: one centre per pair of consecutive hull indices", || format!("{} -> {} indices, {} centres", dsc(), idx.len(), centers.len()));
+                    r.check(centers.len() >= 30, "input space: the pivot travels around the ring (at least 30 steps before it meets a visited point)", || format!("{} -> {} indices", dsc(), idx.len()));
+                    if centers.len() + 1 != idx.len() || idx.iter().any(|&i| i >= pts.len()) { continue; }
+                    for (k, c) in centers.iter().enumerate() {
+                        let d0 = d(&pts[idx[k]], c);
+                        let d1 = d(&pts[idx[k + 1]], c);
+                        r.check((d0 - rad).abs() < 1e-9 && (d1 - rad).abs() < 1e-9, "ball pivot: the centre is exactly one radius from the two consecutive hull points", || format!("{} step {} ({} -> {}): distances {} and {}", dsc(), k, idx[k], idx[k + 1], d0, d1));
+                        let inside: Vec<(usize, f64)> = pts.iter().enumerate().map(|(j, q)| (j, d(q, c))).filter(|x| !(x.1 > rad - 1e-9)).collect();
+                        r.check(inside.is_empty(), "ball pivot: no input point strictly inside the ball", || format!("{} step {} ({} -> {}), centre ({}, {}): points (index, distance from the centre) {:?}", dsc(), k, idx[k], idx[k + 1], c.x, c.y, &inside[..inside.len().min(4)]));
+                    }
+                }
+            }
+        }
+    } } }
+}
+
 pub fn run() -> Option<Report> {
-    let mut r = Report::new("k-d trees: 7x7 2D grid + 4 duplicates, 5x5x2 3D grid + 3 duplicates, and (tagged, known dependency defect) a 5x4x3 and a 33x3 grid, 3x3 grid + 1 duplicate; queries = data points, cell centres, off-grid and outside points; k in {1,2,5}; radii {0,0.3,0.75,1.2,1.5,2.1,2.5} (hits within 1e-9 of the boundary not judged) and, at every data point, the exact-tie radii {1,2,5} (7x7), {1,2} (3x3), {1,2,3} (5x5x2) judged as the open ball d < r; PartialKdTree over 5 index lists (subsets, permuted and reversed full-length lists); Poisson disk over the same clouds, 6 working lists x radii {0.5,1.2,1.5,2.1}; hulls of 6 integer point sets, 4 simple polygons in both orientations, 6 outlines with exactly 3, 4, 5 hull vertices x every start vertex x both orientations; mesh sampling on 5 meshes (2 with a zero-area face), uniform n=3000, dense spacing {0.3,0.45,4}, Poisson radius {0.4,0.9}, dense / Poisson also on 4 meshes with a positive-area sliver face that has no computable normal (|ab x ac| = 2^-54) before faces of other orientations; ball pivot (radius 2) on a 12-point ring + an extra point at pivot angle {0.05,1e-2,3e-4}");
+    let mut r = Report::new("k-d trees: 7x7 2D grid + 4 duplicates, 5x5x2 3D grid + 3 duplicates, and (tagged, known dependency defect) a 5x4x3 and a 33x3 grid, 3x3 grid + 1 duplicate; queries = data points, cell centres, off-grid and outside points; k in {1,2,5}; radii {0,0.3,0.75,1.2,1.5,2.1,2.5} (hits within 1e-9 of the boundary not judged) and, at every data point, the exact-tie radii {1,2,5} (7x7), {1,2} (3x3), {1,2,3} (5x5x2) judged as the open ball d < r; PartialKdTree over 5 index lists (subsets, permuted and reversed full-length lists); Poisson disk over the same clouds, 6 working lists x radii {0.5,1.2,1.5,2.1}; hulls of 6 integer point sets, 4 simple polygons in both orientations, 6 outlines with exactly 3, 4, 5 hull vertices x every start vertex x both orientations; mesh sampling on 5 meshes (2 with a zero-area face), uniform n=3000, dense spacing {0.3,0.45,4}, Poisson radius {0.4,0.9}, dense / Poisson also on 4 meshes with a positive-area sliver face that has no computable normal (|ab x ac| = 2^-54) before faces of other orientations; ball pivot (radius 2) on a 12-point ring + an extra point at pivot angle {0.05,1e-2,3e-4}; ROUND 4: convex_hull_2d / point_order_direction on 8 outlines with every vertex listed 2 / 3 times in a row (alone and with a second doubled vertex), both orientations; ball pivot (radius 2, Ccw and Cw, 2 starts) around a ring of 60 points of radius 10 with a dense cluster of 8 / 40 / 80 interior points 0.2 .. 0.6 behind ring vertex 10 / 25 / 47 (all closer to it than its ring neighbours)");
     // k-d trees
     let c2 = cloud2(7, 7, &[0, 10, 24, 48]);
     search_checks(&mut r, "", "7x7 grid + duplicates of points 0, 10, 24, 48", &c2, &queries2(&c2, 7, 7));
@@ -514,10 +579,20 @@ pub fn run() -> Option<Report> {
     direction_rotation_checks(&mut r, "square with a dent (5 vertices, 4 on the hull)", &dented, 4);
     direction_rotation_checks(&mut r, "convex pentagon", &pentagon, 5);
     direction_rotation_checks(&mut r, "L-shape (6 vertices, 5 on the hull)", &ell, 5);
+    // round 4: consecutive repeated points
+    repeated_point_checks(&mut r, "hexagon", &hexagon);
+    repeated_point_checks(&mut r, "L-shape", &ell);
+    repeated_point_checks(&mut r, "8-point star", &star);
+    repeated_point_checks(&mut r, "triangle", &tri);
+    repeated_point_checks(&mut r, "square", &square);
+    repeated_point_checks(&mut r, "square with a dent", &dented);
+    repeated_point_checks(&mut r, "convex pentagon", &pentagon);
+    repeated_point_checks(&mut r, "three-pointed star", &tri_star);
     // mesh sampling
     sampling_checks(&mut r);
     // ball pivoting
     pivot_checks(&mut r);
+    pivot_dense_checks(&mut r);
     // LAST (so that these listed failures cannot crowd out others):
     // point sets on which kiddo 5.0.3 builds a leaf with more than 32 items (ties on the split axis push the pivot):
     // its nearest_n_within leaf code then reports the item ids of the first chunk for the items of the remainder.
